@@ -30,6 +30,11 @@ structure TFor (α : Type) where
 section static
 variable {α : Type}
 
+/-- the fragment of `Props/C19.lean`: expressions of the `where` fragment, and a pattern without parentheses
+names exactly one variable (grammar) -/
+def TIt.wf (it : TIt α) : Bool := it.over.wf && (it.tuple || it.vars.length == 1)
+def TFor.wf (f : TFor α) : Bool := f.its.all TIt.wf && wfList f.idx
+
 /-- `IterableSet::variable_types` -/
 def variableTypes (g : Ctx) (it : TIt α) : Except TErr (List (String × Kind)) :=
   match it.over.typeOf g with
@@ -152,6 +157,25 @@ def runFor (r : VEnv α) : List (TIt α) → List (TE α) → Except TErr (List 
         let r1 ← bindElem r0 it x
         runFor r1 rest idx) elems
       pure leaves.flatten
+
+/-- `new_from_constants`, then every quantified constraint in the environment of the constants -/
+def runProgram (lets : List (String × TE α)) (fors : List (TFor α)) : Except TErr (List (List (List (Prim α)))) := do
+  let r ← evalWhere lets
+  mapT (fun (f : TFor α) => runFor r f.its f.idx) fors
 end dynamic
+
+section staticProgram
+variable {α : Type} [Arith α]
+def typeCheckFors (g : Ctx) : List (TFor α) → Except TErr Unit
+  | [] => .ok ()
+  | f :: fs => do
+    typeCheckFor g f.its f.idx
+    typeCheckFors g fs
+/-- `create_type_checker`: the constants, then every constraint in the context of the constants (its
+scopes are closed again before the next one) -/
+def typeCheckProgram (lets : List (String × TE α)) (fors : List (TFor α)) : Except TErr Unit := do
+  let g ← typeCheckWhere lets
+  typeCheckFors g fors
+end staticProgram
 
 end Rooc.Pre
